@@ -24,7 +24,11 @@ NAMES = [
     'tests_é', 'x' * 40,
 ]
 POOL = ['a', 'b', 'ab', '^a', 'a$', '.', 'x|b', 'a*', '', 'Layer1$', 'Layer1', 'tests', r'\.', '[ab]c', '(?i)upper',
-        'zzz']
+        'zzz',
+        # patterns whose meaning depends on being compiled on their own: inline flags, numbered and named groups with
+        # back-references, verbose mode, dangling alternation, look-around
+        '(?i)LAYER1', '(?i)b', r'(a)\1', r'(b)\1', r'(a|b)\1', r'(?P<n>a)(?P=n)', r'(x)?(b)\2', '(?x) a b', '(?s)a.b',
+        '(?m)^b', 'a|', '|zzz', 'a(?=b)', '(?<!a)b', r'(t)es\1', '(?#c)ab', '(?a)\\w+é']
 SMALL_POOL = ['a', 'b', '^a', 'b$', '.', '', 'ab', 'x|b', 'Layer1$', 'tests', 'zzz', r'\.']
 
 
@@ -56,10 +60,21 @@ def check_func(patterns, name_list, extra_pos=None, extra_neg=None, perm=None):
         # no pattern at all is never fed by the runner (defaults are ['.']) and the statement can be read
         # both ways for it; nothing is asserted
         return [], 0
+    for p in list(patterns) + [x for x in (extra_pos, extra_neg) if x is not None]:
+        try:
+            re.compile(p[1:] if p.startswith('!') else p)
+        except re.error:
+            return [], 0     # not a regular expression: outside the statement's domain
     try:
-        acc = build_filtering_func(patterns)
-    except re.error:
-        return [], 0
+        return _check_func(build_filtering_func, patterns, name_list, extra_pos, extra_neg, perm, viol)
+    except Exception as e:  # noqa: BLE001 - every pattern is valid on its own, so the filter has no reason to raise
+        viol.append(('C08/filter-raised', 'patterns %r (each a valid regular expression): %s: %s'
+                     % (patterns, type(e).__name__, e)))
+        return viol, 0
+
+
+def _check_func(build_filtering_func, patterns, name_list, extra_pos, extra_neg, perm, viol):
+    acc = build_filtering_func(patterns)
     sel = 0
     for nm in name_list:
         got = bool(acc(nm))
